@@ -648,8 +648,10 @@ func runHostile(sh *core.Shard, a props.Args, n int, streams int) {
 			}
 			own = v.LocalNode()
 			sh.Count("valid_exchanges_after_hostile", 1)
-			// keep the victim's remote table from growing without bound
-			if len(v.Nodes()) > 2000 {
+			// keep the victim's remote table small: the join probe transfers the whole
+			// state inside the 300 ms stream timeout this victim is configured with, and
+			// a multi-megabyte response does not make it on a loaded machine
+			if len(v.Nodes()) > 150 {
 				conn = &captureConn{}
 				v = newVictim(conn, 1400)
 				own = v.LocalNode()
